@@ -6,7 +6,7 @@
    [spec_ops ops []] is the same history on the ordered association list of
    lib/OMap.v. *)
 From Coq Require Import ZArith List Bool.
-From ELA Require Import lib.OMap model.C19_Treap proof.C19_Treap.
+From ELA Require Import lib.OMap model.C19_Treap proof.C19_Treap proof.C19_Iter.
 Import ListNotations.
 Local Open Scope Z_scope.
 
@@ -25,17 +25,31 @@ Theorem C19_delete_abs : forall t k, wf t -> abs (delete t k) = OMap.del (abs t)
 Proof. exact delete_abs. Qed.
 Print Assumptions C19_delete_abs.
 
-(* The invariant (search-tree order, min-heap on priorities, count and size
-   bookkeeping) holds initially and is preserved by every step. *)
+(* The invariant (search-tree order, count and size bookkeeping) holds
+   initially and is preserved by every step. *)
 Theorem C19_invariant_preserved :
   wf empty /\ (forall t k v p, wf t -> wf (put t k v p)) /\ (forall t k, wf t -> wf (delete t k)).
 Proof. exact (conj wf_empty (conj put_wf delete_wf)). Qed.
 Print Assumptions C19_invariant_preserved.
 
-Theorem C19_bst_heap_reachable : forall ops,
-  sorted (abs (run_ops ops empty)) /\ heap (root (run_ops ops empty)).
-Proof. exact (fun ops => conj (reachable_sorted ops) (reachable_heap ops)). Qed.
-Print Assumptions C19_bst_heap_reachable.
+Theorem C19_bst_reachable : forall ops, sorted (abs (run_ops ops empty)).
+Proof. exact reachable_sorted. Qed.
+Print Assumptions C19_bst_reachable.
+
+(* Heap order: Put keeps the min-heap on priorities for every priority drawn;
+   Delete, as written (it lifts the child with the LARGER priority value), does
+   not.  The loss is invisible through Get/Has/Len/Size/iteration -- no theorem
+   of this file needs heap order -- so it is recorded here as a fact about the
+   code, not as a violation of C19. *)
+Theorem C19_put_keeps_heap : forall t k v p, heap (root t) -> heap (root (put t k v p)).
+Proof. exact put_heap. Qed.
+Print Assumptions C19_put_keeps_heap.
+
+Theorem C19_delete_heap_not_invariant :
+  let t := Node (Node Leaf [1] [] 5 Leaf) [2] [] 1 (Node Leaf [3] [] 3 Leaf) in
+  bst t /\ heap t /\ ~ heap (tdel t [2]).
+Proof. exact delete_heap_counterexample. Qed.
+Print Assumptions C19_delete_heap_not_invariant.
 
 (* Get / Has / Len / Size answer like the ordered map. *)
 Theorem C19_get : forall ops k, get (run_ops ops empty) k = OMap.get (spec_ops ops []) k.
@@ -67,6 +81,79 @@ Theorem C19_persistent : forall ops later,
 Proof. exact persistent. Qed.
 Print Assumptions C19_persistent.
 
+(* ------------------------------------------------------------------ iterator
+   [current it] is (Key(),Value()) when Valid(); [ofilter (irange it) o] keeps
+   o only if its key lies in the iterator's range [start, limit); [pos_ok]
+   says the parent stack is the ancestor chain of the current node (what the
+   next step relies on).  All statements are for an arbitrary search tree as
+   the iterator's root, hence for every reachable treap. *)
+
+(* Seek(k): the first pair with key >= k, provided it lies in the range. *)
+Theorem C19_iter_seek : forall it k it' b, bst (i_root it) -> seek_ge it k = (it', b) ->
+  current it' = ofilter (irange it) (OMap.seek_ge (elements (i_root it)) k) /\
+  b = is_some (current it') /\ it_same it it' /\ i_seek it' = None /\ i_new it' = false /\ pos_ok it'.
+Proof. exact seek_ge_spec. Qed.
+Print Assumptions C19_iter_seek.
+
+(* First(): the first pair of the map restricted to the range. *)
+Theorem C19_iter_first : forall it it' b, bst (i_root it) -> first it = (it', b) ->
+  current it' = OMap.first (OMap.range (elements (i_root it)) (i_start it) (i_limit it)) /\
+  b = is_some (current it') /\ it_same it it' /\ i_seek it' = None /\ i_new it' = false /\ pos_ok it'.
+Proof. exact first_range_spec. Qed.
+Print Assumptions C19_iter_first.
+
+(* Last(): the last pair below the limit, provided it is not below the start. *)
+Theorem C19_iter_last : forall it it' b, bst (i_root it) -> last it = (it', b) ->
+  current it' = ofilter (irange it)
+                  (match i_limit it with Some l => OMap.seek_lt (elements (i_root it)) l
+                                       | None => OMap.last (elements (i_root it)) end) /\
+  b = is_some (current it') /\ it_same it it' /\ i_seek it' = None /\ i_new it' = false /\ pos_ok it'.
+Proof. exact last_spec. Qed.
+Print Assumptions C19_iter_last.
+
+(* Next() from a valid position (on key k, or re-seeking key k after
+   ForceReseek): the successor of k in the map restricted to the range. *)
+Theorem C19_iter_next : forall it it' b, bst (i_root it) -> i_new it = false ->
+  is_node (i_node it) = true -> (i_seek it = None -> pos_ok it) -> next it = (it', b) ->
+  current it' = ofilter (irange it)
+                  (OMap.seek_gt (elements (i_root it))
+                     (match i_seek it with Some sk => sk | None => node_key (i_node it) end)) /\
+  b = is_some (current it') /\ it_same it it' /\ i_seek it' = None /\ i_new it' = false /\ pos_ok it'.
+Proof. exact next_spec. Qed.
+Print Assumptions C19_iter_next.
+
+Theorem C19_iter_prev : forall it it' b, bst (i_root it) -> i_new it = false ->
+  is_node (i_node it) = true -> (i_seek it = None -> pos_ok it) -> prev it = (it', b) ->
+  current it' = ofilter (irange it)
+                  (OMap.seek_lt (elements (i_root it))
+                     (match i_seek it with Some sk => sk | None => node_key (i_node it) end)) /\
+  b = is_some (current it') /\ it_same it it' /\ i_seek it' = None /\ i_new it' = false /\ pos_ok it'.
+Proof. exact prev_spec. Qed.
+Print Assumptions C19_iter_prev.
+
+(* Mutable treap changed under the iterator, ForceReseek, then Next/Prev: the
+   neighbour, in the NEW contents t, of the key the iterator was on. *)
+Theorem C19_iter_reseek : forall it t, bst t -> i_mut it = true -> i_new it = false ->
+  is_node (i_node it) = true ->
+  (forall it' b, next (force_reseek it t) = (it', b) ->
+     current it' = ofilter (irange it) (OMap.seek_gt (elements t) (node_key (i_node it))) /\
+     b = is_some (current it') /\ i_root it' = t /\ i_seek it' = None /\ pos_ok it') /\
+  (forall it' b, prev (force_reseek it t) = (it', b) ->
+     current it' = ofilter (irange it) (OMap.seek_lt (elements t) (node_key (i_node it))) /\
+     b = is_some (current it') /\ i_root it' = t /\ i_seek it' = None /\ pos_ok it').
+Proof. exact reseek_spec. Qed.
+Print Assumptions C19_iter_reseek.
+
+(* The whole forward walk (Next until exhaustion) of a fresh iterator over a
+   treap reached by any history yields exactly the ordered map restricted to
+   [start, limit), in order. *)
+Theorem C19_iter_walk : forall ops start limit mut,
+  let t := root (run_ops ops empty) in
+  collect_next (S (length (elements t))) (new_iter t start limit mut) =
+  OMap.range (spec_ops ops []) start limit.
+Proof. exact walk_reachable. Qed.
+Print Assumptions C19_iter_walk.
+
 (* Non-vacuity: a concrete history with a priority tie, an overwrite and
    deletes of a two-child node reaches a 3-key map. *)
 Example C19_nonvacuous :
@@ -74,5 +161,9 @@ Example C19_nonvacuous :
               MPut [2] [21] 9; MDel [3]; MDel [9]] in
   abs (run_ops ops empty) = [([1], [10]); ([2], [21]); ([2;0], [])] /\
   count (run_ops ops empty) = 3 /\ size (run_ops ops empty) = 3 * 72 + 6 /\
-  get (run_ops ops empty) [2;0] = Some [] /\ get (run_ops ops empty) [3] = None.
-Proof. vm_compute. repeat split; reflexivity. Qed.
+  get (run_ops ops empty) [2;0] = Some [] /\ get (run_ops ops empty) [3] = None /\
+  collect_next 4 (new_iter (root (run_ops ops empty)) (Some [1;0]) None false) = [([2], [21]); ([2;0], [])] /\
+  (let it := fst (seek_ge (new_iter (root (run_ops ops empty)) None (Some [2;0]) true) [1;5]) in
+   current it = Some ([2], [21]) /\ pos_ok it /\ current (fst (next it)) = None /\
+   current (fst (prev it)) = Some ([1], [10])).
+Proof. vm_compute. repeat split; try reflexivity; auto; discriminate. Qed.
